@@ -79,6 +79,8 @@ def insert_quant(
   # and find the first consumer of the new tensor
   first_consumer_id = min(transformation_input.consumers)
   for consumer_id in transformation_input.consumers:
+    if consumer_id < 0:
+      continue  # -1 stands for the graph output, handled below.
     op = transformation_input.subgraph.operators[consumer_id]
     for input_idx in range(len(op.inputs)):
       if op.inputs[input_idx] == transformation_input.tensor_id:
